@@ -7,6 +7,11 @@ HOOK_COMMITS = subprocess.run(
     capture_output=True, text=True).stdout.strip().splitlines()
 
 CHECKS = {
+ "C05": dict(
+   text="Seeded deterministic simulation with one OS process per generated configuration, so that a fatal error of the engine (stack overflow, panic) is an observable outcome: arbitrary small flow graphs (a well-formed skeleton plus extra connections incl. self-loops, back edges, cycles under one condition and in root-less response directions, undeclared names, bogus conditions, textual YAML damage) and quota files with the usual mistakes go through the gateway's own dry-run validation; accepted ones are loaded for real under both load orders and driven with 10 transactions (random steering, malformed and large bodies, odd paths). R1 validation returns, R2 accepted => real load succeeds, R3 accepted => every transaction side finishes within 1000 processor executions without panic or process death. Sampling of the configuration space, not enumeration.",
+   design_ref="DESIGN.md section 4 C05",
+   note="Trusted: the 1000-step budget as the meaning of 'bounded'; an engine panic counts as a crash (the SPOE worker has no recover); flow references not generated; this property is mostly an input-space property - the simulator contributes process isolation, the step counter hook and the load-order seam.",
+   technique="deterministic simulation: crash-isolated runs of generated configurations with a processor-execution budget (bounded liveness) and load-order control"),
  "C04": dict(
    text="Seeded deterministic simulation: generated well-formed flow graphs (branching, fan-out on equal conditions, joins, early-response nodes, response chains with and without root, optional quota system flow, 1-2 flows on one URL in a load order chosen by the simulator) are loaded into the real engine and driven with steered transactions; the per-flow sequence of processor-executed events (verifhook event in the executor) is compared with a reference interpreter over the YAML connections (R1), and the presence and status of the early response with the interpreter's verdict (R2). Sampling, not proof.",
    design_ref="DESIGN.md section 4 C04",
